@@ -19,14 +19,15 @@ def main():
     job = json.load(sys.stdin)
     cmod = importlib.import_module(job['contract_module'])
     c = dsl.REGISTRY[job['fid']]
-    fn, kind = native.resolve(job['fid'])
+    fn, kind = native.resolve(c.base_fid)
     params = job['params']
     out = {'reproduced': False, 'tried': 0}
     for cand in job['candidates']:
         args = ast.literal_eval(cand)
         out['tried'] += 1
         try:
-            fails = native.check_pure_call(c, cmod, fn, params, list(args), job.get('obligation'))
+            fails = native.check_pure_call(c, cmod, fn, params, list(args), job.get('obligation'),
+                                            nreal=job.get('nreal'))
         except Exception as exc:
             out.setdefault('errors', []).append('%s: %s' % (type(exc).__name__, exc))
             continue
